@@ -129,7 +129,7 @@ def run(ctx):
             for bb, i, lhs, rv in bd.assignments():
                 if bd.is_cleanup(bb):
                     continue
-                through_upvar = not isinstance(lhs, int) and pl_local(lhs) == 1 and "*" in pl_projs(lhs) and bd.kind == "Closure"
+                through_upvar = not isinstance(lhs, int) and "*" in pl_projs(lhs) and bd.kind == "Closure" and (pl_local(lhs) == 1 or _copy_of_upvar(bd, pl_local(lhs)))
                 loop_local = isinstance(lhs, int) and lhs != 0 and bd.locals[lhs] == "bool" and bd.in_cycle(bb) and bd.var_names().get(lhs) is not None
                 if not (through_upvar or loop_local):
                     continue
@@ -140,7 +140,8 @@ def run(ctx):
                 R_ACC = ctx.rule("C02.accum", "a changed-flag that is written once per element (inside an iterator closure or a loop) accumulates (`|=`), it is never overwritten by a later element's result", floor=2)
                 k = "%s|%s|flag-write" % (key, fn_key(c, bd))
                 ctx.inst(R_ACC, k, sample={"rvalue": rv["k"], "op": rv.get("op")})
-                reads_self = any(p_ is not None and p_ == lhs for p_ in srcs)
+                reads_self = any(p_ is not None and (p_ == lhs or (not isinstance(p_, int) and not isinstance(lhs, int) and pl_projs(p_) == pl_projs(lhs)
+                                                                   and _upvar_src(bd, pl_local(p_)) is not None and _upvar_src(bd, pl_local(p_)) == _upvar_src(bd, pl_local(lhs)))) for p_ in srcs)
                 if not (rv["k"] == "bin" and rv.get("op") in ("BitOr",) and reads_self):
                     ctx.violation(R_ACC, k + "|overwrite", "the changed-flag is overwritten with one element's merge result instead of accumulating (`|=`): a change reported for an earlier "
                                   "element is lost when a later element is already up to date", bd.loc(bb))
@@ -208,6 +209,27 @@ def run(ctx):
                     ctx.violation(R_LEN, "%s|%s|mutation-before-old-len" % (key, ident), "self is mutated before the old length is read: growth caused by that mutation is not reported", b.loc(m))
                 if m in b.reachable(start=new) and m != new:
                     ctx.violation(R_LEN, "%s|%s|mutation-after-new-len" % (key, ident), "self is mutated after the new length was read: that growth is not reported", b.loc(m))
+
+
+def _upvar_src(body, local):
+    if local == 1:
+        return ("self",)
+    for bb, idx, rv in body.defs_of(local):
+        if idx != "term" and rv["k"] == "use":
+            p = op_place(rv["ops"][0])
+            if p is not None and not isinstance(p, int) and pl_local(p) == 1:
+                return tuple(pl_projs(p))
+    return None
+
+
+def _copy_of_upvar(body, local):
+    """local = copy (*_1).k : a reference captured by the closure"""
+    for bb, idx, rv in body.defs_of(local):
+        if idx != "term" and rv["k"] == "use":
+            p = op_place(rv["ops"][0])
+            if p is not None and not isinstance(p, int) and pl_local(p) == 1:
+                return True
+    return False
 
 
 def _derives(body, local, targets, depth=0):
